@@ -372,6 +372,17 @@ def r5_state_machine(ctx):
                 if pth == cd.path and any(o[0] == "call" and o[1] == db for o in dep_closure(cd, cd.blocks[nb].term["args"][0])):
                     from_lost.append(bb)
         ctx.check(bool(from_lost), "collect_despawns/lost-entities-despawned", site_of(cd, db), "entities yielded by drain_lost are not written as despawns")
+        for lb in from_lost:
+            extra = []
+            for (sb, c, o) in required_outcomes(F, cd, lb):
+                if is_next_switch(cd, c):
+                    continue
+                if c["kind"] == "variant" and o == {"Some"} and "ClientVisibility" in str(cd.locals[c["place"]["l"]]["ty"]):
+                    continue
+                extra.append((c["kind"], c.get("name") or c.get("rel") or c.get("adt"), sorted(map(str, o))))
+            ctx.check(not extra, "collect_despawns/lost-entities-despawned-unconditionally", site_of(cd, lb),
+                      "the despawn record for an entity whose visibility was lost is additionally conditioned on %s: the exploration assumes every entity reported by "
+                      "drain_lost is despawned on the client" % extra)
     sr = ctx.fn("server::send_replication")
     order = []
     for nm in ("collect_despawns", "collect_changes", "send_messages"):
